@@ -69,6 +69,8 @@ pub enum TOp {
     HonestExchange,
     ReinitSigner,
     Advance { secs: u32 },
+    /// one jump over the re-request threshold of the certificates the TA issued (at most once per case)
+    AdvanceDays { days: u8 },
 }
 
 #[derive(Clone, Debug, Serialize, Deserialize)]
@@ -104,6 +106,7 @@ fn top() -> impl Strategy<Value = TOp> {
         4 => Just(TOp::HonestExchange),
         1 => Just(TOp::ReinitSigner),
         1 => (1u32..86400).prop_map(|secs| TOp::Advance { secs }),
+        3 => (7u8..10).prop_map(|days| TOp::AdvanceDays { days }),
     ]
 }
 
@@ -256,7 +259,9 @@ impl TaWorld {
     }
 
     fn new(key_start: usize) -> Result<Self, Fail> {
-        let cfg = WorldCfg { remote_signer: true, ..WorldCfg::default() };
+        // certificates issued by the TA live three weeks and are re-requested by the child one week after issue:
+        // a jump of the clock makes every child ask again for the key it uses
+        let cfg = WorldCfg { remote_signer: true, ta_issued_valid_weeks: 3, ta_issued_reissue_weeks: 2, ..WorldCfg::default() };
         let w = World::new(cfg, key_start).map_err(Fail::Harness)?;
         let pem = String::from_utf8(krill::commons::verif::pool_key().ok_or_else(|| Fail::Harness("no pool key".into()))?).map_err(h)?;
         let other_proxy_id = w.rt.signer().create_self_signed_id_cert().map_err(h)?;
@@ -311,6 +316,43 @@ impl TaWorld {
             m.remove("version");
         }
         Ok(v)
+    }
+
+    /// (child, key) of every response the proxy holds for collection by a child.
+    fn open_responses(v: &Value) -> BTreeSet<(String, String)> {
+        let mut out = BTreeSet::new();
+        if let Some(m) = v.get("child_details").and_then(|c| c.as_object()) {
+            for (child, d) in m {
+                if let Some(o) = d.get("open_responses").and_then(|x| x.as_object()) {
+                    for k in o.keys() {
+                        out.insert((child.clone(), k.clone()));
+                    }
+                }
+            }
+        }
+        out
+    }
+
+    /// "Delivered to that child exactly once": a response waits at the proxy until the child collects it.
+    /// Processing a signer response runs no child task, so it can only add to what waits.
+    fn check_nothing_dropped(&mut self, before: &Value) -> Result<Result<(), Bad>, Fail> {
+        let after = self.proxy_json()?;
+        let b = Self::open_responses(before);
+        let a = Self::open_responses(&after);
+        if std::env::var("KVH_C15_DEBUG").is_ok() {
+            eprintln!("processed a response: waiting before {b:?} after {a:?}");
+        }
+        let lost: Vec<&(String, String)> = b.difference(&a).collect();
+        if !lost.is_empty() {
+            return Ok(Err(bad("c15-delivery", "response-dropped-before-collection", format!("responses waiting for collection disappeared when another signer response was processed: {lost:?} (waiting before: {b:?}, after: {a:?})"))));
+        }
+        if !b.is_empty() && a.len() > b.len() {
+            self.hit("response_accepted_while_earlier_ones_wait_for_collection");
+        }
+        if a.difference(&b).any(|(child, key)| b.iter().any(|(c2, k2)| c2 == child && k2 != key)) {
+            self.hit("second_key_of_a_child_answered_while_the_first_waits_for_collection");
+        }
+        Ok(Ok(()))
     }
 
     fn open_nonce(&self) -> Result<Option<String>, Fail> {
@@ -598,6 +640,9 @@ impl TaWorld {
                     return Ok(Err(bad("c15-proxy", "request-still-open", "the request is still open after its response was accepted".into())));
                 }
                 self.hit("response_accepted");
+                if let Err(b) = self.check_nothing_dropped(&before)? {
+                    return Ok(Err(b));
+                }
                 self.sync_ta_repo()?;
             }
             Err(e) => {
@@ -664,9 +709,13 @@ impl TaWorld {
             }
         };
         let resp = self.responses[idx].resp.clone();
+        let before = self.proxy_json()?;
         let res = guarded(|| self.w.cam().ta_proxy_signer_process_response(resp, &self.w.actor, &self.w.rt).map_err(|e| e.to_string())).map_err(|c| Fail::Crash(c.what))?;
         if let Err(e) = res {
             return Ok(Err(bad("c15-proxy", "refused-genuine-response", format!("proxy refused the fresh response of its signer: {e}"))));
+        }
+        if let Err(b) = self.check_nothing_dropped(&before)? {
+            return Ok(Err(b));
         }
         self.hit("honest_exchange");
         self.sync_ta_repo()?;
@@ -766,6 +815,16 @@ impl TaWorld {
             }
             TOp::Advance { secs } => {
                 clock::advance(*secs as i64);
+                Ok(Ok(()))
+            }
+            TOp::AdvanceDays { days } => {
+                // once per case: signed messages are valid for 14 days and the harness does not model their expiry
+                if !self.stats.contains_key("jump_over_rerequest_threshold") {
+                    clock::advance(*days as i64 * 86400);
+                    self.hit("jump_over_rerequest_threshold");
+                    // regular maintenance of the instance (manifests of the CAs have a next-update of a day)
+                    self.w.republish(false).map_err(Fail::Harness)?;
+                }
                 Ok(Ok(()))
             }
         }
